@@ -21,6 +21,8 @@ pub struct ReqPlan {
 #[derive(Clone, Debug)]
 pub struct ConnPlan {
     pub idx: usize,
+    pub proc: usize,
+    pub dst_name: String,
     pub task: TaskIds,
     pub dst: String, // ip:port
     pub start_ms: u64,
@@ -30,6 +32,9 @@ pub struct ConnPlan {
     /// "normal" | "reset_after_send"
     pub close: String,
     pub protocol: u32,
+    /// attribution record written by the harness right after connect, before the agent can look it up:
+    /// (original destination "ip:port") — stands for a kernel record naming that destination
+    pub inject: Option<String>,
 }
 
 #[derive(Clone, Debug, Default)]
@@ -40,6 +45,8 @@ pub struct ReqResult {
     pub err: Option<String>,
     pub t_sent_ns: u64,
     pub t_resp_ns: u64,
+    pub wall_sent_ns: i128,
+    pub wall_resp_ns: i128,
 }
 
 #[derive(Clone, Debug, Default)]
@@ -58,6 +65,10 @@ pub struct ConnResult {
 /// Latin-1 style mapping: each char <= 0xFF of the JSON string is one byte
 pub fn str_to_bytes(s: &str) -> Vec<u8> {
     s.chars().map(|c| (c as u32).min(255) as u8).collect()
+}
+pub fn str_to_bytes_os(s: &str) -> std::ffi::OsString {
+    use std::os::unix::ffi::OsStringExt;
+    std::ffi::OsString::from_vec(str_to_bytes(s))
 }
 pub fn bytes_to_str(b: &[u8]) -> String {
     b.iter().map(|x| *x as char).collect()
@@ -81,7 +92,7 @@ pub fn dst_addr(name: &str) -> String {
         "ga" => hosts::GA.to_string(),
         "imds" => hosts::IMDS.to_string(),
         "other" => hosts::OTHER.to_string(),
-        "direct" | "self" => hosts::PROXY.to_string(),
+        "direct" | "self" | "other_redirected" => hosts::PROXY.to_string(),
         x => x.to_string(),
     }
 }
@@ -118,6 +129,9 @@ pub async fn run_conn(p: ConnPlan) -> ConnResult {
         out.src_port = ci.src.port();
         out.redirected = ci.redirected;
     }
+    if let Some(dst) = &p.inject {
+        inject_audit(p.protocol, out.src_port, p.task.uid, p.task.tgid, dst);
+    }
     let mut rd = Reader::new(stream);
     if p.pipeline {
         let mut all = Vec::new();
@@ -125,9 +139,10 @@ pub async fn run_conn(p: ConnPlan) -> ConnResult {
             all.extend_from_slice(&serialise(r));
         }
         let t = vrt::time::now_ns();
+        let wall_t = vrt::time::wall_now_ns();
         let sent = rd.s.write_all(&all).await;
         for r in &p.reqs {
-            out.results.push(ReqResult { tok: r.tok.clone(), sent: sent.is_ok(), t_sent_ns: t, err: sent.as_ref().err().map(|e| e.to_string()), ..Default::default() });
+            out.results.push(ReqResult { tok: r.tok.clone(), sent: sent.is_ok(), t_sent_ns: t, wall_sent_ns: wall_t, err: sent.as_ref().err().map(|e| e.to_string()), ..Default::default() });
         }
         if sent.is_ok() {
             if p.close == "reset_after_send" {
@@ -137,6 +152,7 @@ pub async fn run_conn(p: ConnPlan) -> ConnResult {
                     match read_resp(&mut rd, r.method == "HEAD").await {
                         Ok(m) => {
                             out.results[i].t_resp_ns = m.t_last_ns;
+                            out.results[i].wall_resp_ns = vrt::time::wall_now_ns();
                             out.results[i].resp = Some(m);
                         }
                         Err(e) => {
@@ -150,7 +166,7 @@ pub async fn run_conn(p: ConnPlan) -> ConnResult {
     } else {
         for r in &p.reqs {
             let bytes = serialise(r);
-            let mut rr = ReqResult { tok: r.tok.clone(), t_sent_ns: vrt::time::now_ns(), ..Default::default() };
+            let mut rr = ReqResult { tok: r.tok.clone(), t_sent_ns: vrt::time::now_ns(), wall_sent_ns: vrt::time::wall_now_ns(), ..Default::default() };
             match rd.s.write_all(&bytes).await {
                 Ok(()) => rr.sent = true,
                 Err(e) => {
@@ -167,6 +183,7 @@ pub async fn run_conn(p: ConnPlan) -> ConnResult {
             match read_resp(&mut rd, r.method == "HEAD").await {
                 Ok(m) => {
                     rr.t_resp_ns = m.t_last_ns;
+                    rr.wall_resp_ns = vrt::time::wall_now_ns();
                     let closing = m.head.get("connection").map(|v| v.to_ascii_lowercase().contains("close")).unwrap_or(false) || m.until_close;
                     rr.resp = Some(m);
                     out.results.push(rr);
@@ -213,4 +230,20 @@ pub fn req_from_json(v: &Value) -> ReqPlan {
         chunks: v["chunks"].as_array().map(|a| a.iter().map(|x| x.as_u64().unwrap_or(1) as usize).collect()),
         tok: v["tok"].as_str().unwrap_or("").to_string(),
     }
+}
+
+/// write an attribution record exactly as the kernel program lays it out (socket.h)
+pub fn inject_audit(protocol: u32, src_port: u16, uid: u32, pid: u32, dst: &str) {
+    let a: std::net::SocketAddrV4 = dst.parse().expect("inject dst");
+    let mut key = Vec::new();
+    key.extend_from_slice(&protocol.to_ne_bytes());
+    key.extend_from_slice(&(src_port as u32).to_ne_bytes());
+    let mut val = Vec::new();
+    val.extend_from_slice(&uid.to_ne_bytes());
+    val.extend_from_slice(&pid.to_ne_bytes());
+    val.extend_from_slice(&(if uid == 0 { 1u32 } else { 0u32 }).to_ne_bytes());
+    val.extend_from_slice(&vrt::kernel::ip_to_be32(*a.ip()).to_ne_bytes());
+    val.extend_from_slice(&(a.port().to_be() as u32).to_ne_bytes());
+    let r = vrt::kernel::map_update(vrt::kernel::MAP_AUDIT, &key, &val);
+    vrt::log("kern", format!("inject audit port={} uid={} pid={} dst={} -> {}", src_port, uid, pid, dst, r));
 }
